@@ -6,6 +6,7 @@ import (
 	"fmt"
 	"sort"
 	"sync"
+	"time"
 
 	"verif/vk"
 
@@ -115,9 +116,6 @@ func runStream(cfg streamCfg, ch *vk.Chooser, stats *streamStats) (v *streamViol
 	defer bufPool.Put(bp)
 	buf := *bp
 	fail := func(key, format string, args ...interface{}) *streamViol {
-		if a.in.short+b.in.short > 0 {
-			key += ":after-short-read"
-		}
 		return &streamViol{key, fmt.Sprintf(format, args...)}
 	}
 	// readOne performs one Read on d; done=true when nothing is outstanding.
@@ -317,17 +315,20 @@ func streamGroups(r *vk.Run) []streamGroup {
 					est := cfg.estReads()
 					bound := 0
 					if r.Quick() {
+						if len(w) == 3 && (len(p) > 1 || drainEach || variant == 1) {
+							continue // quick tier: 3 writes only with the 5 fixed read sizes, one direction
+						}
 						switch {
-						case len(w) <= 2 && est <= 64:
+						case len(w) <= 2 && est <= 48:
 							bound = 2
-						case est <= 2500:
+						case len(w) <= 2 && est <= 2500, est <= 300:
 							bound = 1
 						}
 					} else {
 						switch {
 						case len(w) == 1 && est <= 64:
 							bound = 3
-						case est <= 1200:
+						case len(w) <= 2 && est <= 600, len(p) == 1 && !drainEach && est <= 100:
 							bound = 2
 						default:
 							bound = 1
@@ -355,8 +356,11 @@ func phaseStream(r *vk.Run) {
 	var per []interface{}
 	totalExec, totalCfg := 0, 0
 	var total streamStats
+	var agg violAgg
+	defer agg.flush(r)
 	for _, g := range groups {
 		g := g
+		t0 := time.Now()
 		var mu sync.Mutex
 		var gs streamStats
 		cfgSeen := map[int]int{}
@@ -371,7 +375,7 @@ func phaseStream(r *vk.Run) {
 			cfgSeen[ci]++
 			mu.Unlock()
 			if v != nil {
-				r.Violation(v.key, v.what, map[string]interface{}{"part": "stream", "group": g.name, "config": cfg.String(), "short_reads": devs, "choices": append([]int{}, ch.Choices...)})
+				agg.add(v.key, v.what, map[string]interface{}{"part": "stream", "group": g.name, "config": cfg.String(), "short_reads": devs, "choices": append([]int{}, ch.Choices...)}, len(devs), cfg.estReads())
 			} else if len(devs) == g.bound && ci%97 == 3 && s.short == g.bound {
 				r.Sample(map[string]interface{}{"part": "stream", "config": cfg.String(), "short_reads": devs, "result": "identical"})
 			}
@@ -381,7 +385,7 @@ func phaseStream(r *vk.Run) {
 		}
 		per = append(per, map[string]interface{}{"search": "stream/" + g.name, "configs": len(g.cfgs), "configs_run": len(cfgSeen), "deviation_bound": g.bound,
 			"executions": st.Executions, "choice_points": st.ChoicePoints, "by_cost": st.ByCost, "reads": gs.reads, "writes": gs.writes, "bytes_verified": gs.bytes, "short_reads_taken": gs.short, "raw_reads": gs.rawReads})
-		fmt.Printf("stream/%s: configs=%d executions=%d by_cost=%v reads=%d short=%d\n", g.name, len(g.cfgs), st.Executions, st.ByCost, gs.reads, gs.short)
+		fmt.Printf("stream/%s: configs=%d executions=%d by_cost=%v reads=%d short=%d t=%.1fs\n", g.name, len(g.cfgs), st.Executions, st.ByCost, gs.reads, gs.short, time.Since(t0).Seconds())
 		totalExec += st.Executions
 		totalCfg += len(g.cfgs)
 		total.add(&gs)
